@@ -179,7 +179,8 @@ def extended_search(prop: str, comp: str, mod, tier: str, failing: list) -> dict
 
 
 # properties whose anchored module is also tied by the translator (checks/py2lean.py + ProcSim/Props/*gen.lean)
-TIE_MODULE = {"C19": "reg_access"}
+TIE_MODULE = {"C19": "reg_access", "C04": "sim_utils", "C05": "sim_utils"}
+TIE_SEARCH_TIER = {"queue": "thorough"}      # other components: the quick scope over further seeds (minutes, not hours)
 
 
 def tie_search(prop: str, comp: str, mod) -> tuple[dict | None, dict | None, int]:
@@ -190,8 +191,11 @@ def tie_search(prop: str, comp: str, mod) -> tuple[dict | None, dict | None, int
     for k in range(0, 1 + getattr(mod, "EXTENDED_SEEDS", 3)):
         os.environ["VERIF_SEED"] = str(base + 1000 * k)
         try:
-            cases = mod.cases("thorough")
-            res = flatten(core.pmap(COMPONENTS[comp], "run_case", cases, {"tier": "thorough"}, chunk=getattr(mod, "CHUNK", 50)))
+            st = TIE_SEARCH_TIER.get(comp, "quick")
+            if st == "quick" and k == 0:
+                continue            # that run is the one the check has just evaluated
+            cases = mod.cases(st)
+            res = flatten(core.pmap(COMPONENTS[comp], "run_case", cases, {"tier": st}, chunk=getattr(mod, "CHUNK", 50)))
         finally:
             os.environ["VERIF_SEED"] = str(base)
         n += len(res)
